@@ -458,6 +458,49 @@ def rules_selection(run):
             run.check(okk, r, m.short, "the context with 'event' reaches _evaluate_code", 'event context not passed', c)
 
 
+def rules_priority_values(run):
+    r = run.rule('C01.9', 'a priority is a number that may be 0 (the default) or negative: it is never tested by truthiness, and a local that holds '
+                          'either a priority or None is compared with None explicitly')
+    from ..cfg import atoms as _atoms
+    fi = run.fn('Interpreter._select_transitions')
+    F = fi.node
+    holders = set()
+    for n in q.walk(F):
+        if isinstance(n, ast.Assign) and len(n.targets) == 1 and isinstance(n.targets[0], ast.Name) and \
+                any(isinstance(x, ast.Attribute) and x.attr == 'priority' for x in ast.walk(n.value)) and not isinstance(n.value, (ast.Lambda, ast.Compare)):
+            holders.add(n.targets[0].id)
+    tests = []
+    for n in q.walk(F):
+        if isinstance(n, (ast.If, ast.While, ast.IfExp)):
+            tests.append(n.test)
+        elif isinstance(n, ast.comprehension):
+            tests += n.ifs
+        elif isinstance(n, ast.Assert):
+            tests.append(n.test)
+    n_ok = 0
+    for t in tests:
+        leaves = []
+
+        def collect(e):
+            e = strip_cast(e)
+            if isinstance(e, ast.BoolOp):
+                for v in e.values:
+                    collect(v)
+            elif isinstance(e, ast.UnaryOp) and isinstance(e.op, ast.Not):
+                collect(e.operand)
+            else:
+                leaves.append(e)
+        collect(t)
+        for e in leaves:
+            bad = (isinstance(e, ast.Name) and e.id in holders) or (isinstance(e, ast.Attribute) and e.attr == 'priority')
+            if bad:
+                run.fail(r, fi.short, 'truthiness test of priority value ' + q.unparse(e), 'priority 0 (the default class) is treated like "no priority": '
+                         'the pre-emption of lower classes is skipped when the selected class is the default one', e)
+            else:
+                n_ok += 1
+    run.ok(r, fi.short, '%d condition leaves examined, %d local(s) holding a priority: %s' % (n_ok, len(holders), sorted(holders)), F)
+
+
 def rules_groupby(run):
     r = run.rule('C01.6', 'sorted_groupby puts every item in exactly one group (unconditionally), sorts groups by label and honours '
                           'the caller\'s reverse')
@@ -502,7 +545,11 @@ def rules_groupby(run):
 
 
 def check(run):
+    run.guard(rules_priority_values, run)
     run.guard(rules_selection, run)
     run.guard(c05.rules_consumption, run, 'C01', '.5')
     run.guard(rules_groupby, run)
     run.guard(c05.rules_select_event, run, 'C01', '.7')
+    # the queries the decision rests on (depth_for / ancestors_for / descendants_for) must not answer from stale derived data after an edit
+    from .c16 import rules_caches
+    run.guard(rules_caches, run, 'C01', '.8')
